@@ -579,9 +579,11 @@ def _r6(ctx, pkg):
     from .c06 import _r1 as assignment_rule
     ctx.absorb(assignment_rule, "R8")
     _refusal_propagates(ctx, pkg)
-    fn = pkg.method("Network", "export")
+    pkg.method("Network", "export")
     ctx.saw(NET, "Network.export")
-    src = ast.unparse(fn)
+    # the exporter with the stages it may have been split into put back (`if not self._export_x(..): return` is the stage's decision
+    # tree, procedures are their statements); Network.write stays the primitive the rule is about
+    fn = pkg.expanded("Network", "export", keep=("write",))
     w = [c for c in ast.walk(fn) if isinstance(c, ast.Call) and ast.unparse(c.func) == "self.write"]
     # by role: the first argument is a local whose value is <export dir> / 'reactions.naunet'
     arg0 = w[0].args[0] if len(w) == 1 and w[0].args else None
@@ -624,8 +626,14 @@ def _r6(ctx, pkg):
         if dom == "?":
             ctx.unrec("R6", "Network.export:reaction-file on every continuing path", (NET, w[0].lineno), "the write of reactions.naunet sits inside a statement whose paths are not understood")
             dom = None
-        later = [c for c in ast.walk(fn) if isinstance(c, ast.Call) and (ast.unparse(c.func) == "NetworkConfiguration" or (isinstance(c.func, ast.Attribute) and c.func.attr in ("render", "write") and
-                                                                                                                  ast.unparse(c.func) != "self.write")) and c.lineno > w[0].lineno]
+        def in_order(node):
+            yield node
+            for ch in ast.iter_child_nodes(node):
+                yield from in_order(ch)
+        calls = [c for c in in_order(fn) if isinstance(c, ast.Call)]
+        at = next(i for i, c in enumerate(calls) if c is w[0])
+        later = [c for c in calls[at + 1:] if ast.unparse(c.func) == "NetworkConfiguration" or (isinstance(c.func, ast.Attribute) and c.func.attr in ("render", "write") and
+                                                                                             ast.unparse(c.func) != "self.write")]
         if dom is not None:
             ctx.check(dom is True and len(later) >= 2, "R6", "Network.export:reaction-file on every continuing path", (NET, w[0].lineno),
                       "every path that reaches the configuration/source rendering has (re)written reactions.naunet" if dom else
